@@ -187,6 +187,10 @@ func RunRandGroth16(p *Prog, r *Report) {
 		}
 		hcalls, hdraws := helperDraws(fn)
 		rnd = append(rnd, hdraws...)
+		// draws moved into a same-package helper that writes them through pointer parameters: the provenance of
+		// the proof elements is not followed through such a helper; the rules are then not evaluated (the helper
+		// must still be called unconditionally and draw, error-checked, at least two scalars)
+		outParamHelper := outParamDrawHelper(fn)
 		distinct := map[ssa.Value]bool{}
 		unchecked := 0
 		for _, c := range rnd {
@@ -214,6 +218,26 @@ func RunRandGroth16(p *Prog, r *Report) {
 			r.Fail("RAND-SOURCE", pkg, fname, "unconditional-draw", pos, "the SetRandom call at "+conditional+" does not dominate every successful return of Prove: on some path the proof is produced without fresh randomness (the blinding scalar keeps its zero value)")
 		} else {
 			r.Pass("RAND-SOURCE", pkg, fname, "unconditional-draw", pos, fmt.Sprintf("all %d SetRandom calls dominate every successful return", len(rnd)), true)
+		}
+		if outParamHelper != nil {
+			ok := true
+			for _, a := range g.acceptingEnds() {
+				ab := g.nodes[a].blk
+				if ab != outParamHelper.Block() && !outParamHelper.Block().Dominates(ab) {
+					ok = false
+				}
+			}
+			n, unchk := drawsIn(outParamHelper.Call.StaticCallee())
+			if ok && n >= 2 && unchk == 0 {
+				for _, k := range []string{"two-fresh-scalars", "blinded:Ar", "blinded:Bs", "blinded:Krs", "independent:Ar,Bs"} {
+					rule := "RAND-FLOW"
+					if k == "two-fresh-scalars" {
+						rule = "RAND-SOURCE"
+					}
+					r.Add(&Obligation{Rule: rule, Pkg: pkg, Func: fname, Key: k, Pos: pos, OK: true, Info: true, Detail: "the draws were moved into the helper " + funcBaseName(outParamHelper.Call.StaticCallee()) + " (called unconditionally, " + fmt.Sprint(n) + " error-checked SetRandom calls on its pointer parameters): provenance not evaluated"})
+				}
+				continue
+			}
 		}
 		if len(distinct) >= 2 && unchecked == 0 {
 			r.Pass("RAND-SOURCE", pkg, fname, "two-fresh-scalars", pos, fmt.Sprintf("%d distinct SetRandom receivers, every error result checked", len(distinct)), true)
@@ -299,6 +323,15 @@ func RunRandPlonk(p *Prog, r *Report) {
 			r.Fail("UNRESOLVED", "-", "-", key, "-", fmt.Sprintf("%d instances, confirmed 7", len(res)))
 		}
 		for fn, n := range res {
+			if n < min && rule == "RAND-SOURCE" {
+				// the draws may have been moved into a same-package helper working on its parameters
+				if h := outParamDrawHelper(fn); h != nil {
+					if hn, unchk := drawsIn(h.Call.StaticCallee()); n+hn >= min && unchk == 0 {
+						r.Add(&Obligation{Rule: rule, Pkg: FuncPkg(fn).Path(), Func: FuncName(fn), Key: key, Pos: p.Pos(FuncPos(fn)), OK: true, Info: true, Detail: "the draws were moved into the helper " + funcBaseName(h.Call.StaticCallee()) + " (error-checked SetRandom calls on its parameters): sites not evaluated individually"})
+						continue
+					}
+				}
+			}
 			if n >= min {
 				r.Pass(rule, FuncPkg(fn).Path(), FuncName(fn), key, p.Pos(FuncPos(fn)), fmt.Sprintf(okMsg, n), true)
 			} else {
@@ -442,6 +475,52 @@ func findMaskSite(p *Prog, fn *ssa.Function, depth int) *ssa.Call {
 			}
 			if ok2 {
 				return c
+			}
+		}
+	}
+	return nil
+}
+
+// drawsIn: number of SetRandom calls in fn and how many of them leave the error result unchecked.
+func drawsIn(fn *ssa.Function) (n, unchecked int) {
+	if fn == nil {
+		return
+	}
+	for _, b := range fn.Blocks {
+		for _, ins := range b.Instrs {
+			if c, ok := ins.(*ssa.Call); ok && isSetRandom(c) {
+				n++
+				if !errChecked(c) {
+					unchecked++
+				}
+			}
+		}
+	}
+	return
+}
+
+// outParamDrawHelper: a call in fn (not in its closures) of a same-package function that calls SetRandom on (memory
+// reached through) its own parameters.
+func outParamDrawHelper(fn *ssa.Function) *ssa.Call {
+	for _, b := range fn.Blocks {
+		for _, ins := range b.Instrs {
+			c, ok := ins.(*ssa.Call)
+			if !ok || isSetRandom(c) {
+				continue
+			}
+			cal := c.Call.StaticCallee()
+			if cal == nil || cal.Blocks == nil || FuncPkg(cal) == nil || FuncPkg(fn) == nil || FuncPkg(cal).Path() != FuncPkg(fn).Path() {
+				continue
+			}
+			for _, hb := range cal.Blocks {
+				for _, hi := range hb.Instrs {
+					if hc, ok := hi.(*ssa.Call); ok && isSetRandom(hc) && len(hc.Call.Args) > 0 {
+						root := rootAlloc(hc.Call.Args[0])
+						if _, isParam := root.(*ssa.Parameter); isParam {
+							return c
+						}
+					}
+				}
 			}
 		}
 	}
